@@ -175,6 +175,12 @@ func (c *RegConfig) ParseOrResolveBlocklisted(provided string) (string, bool) {
 		// ResolveIPAddr answers the empty host with an address that has no IP
 		return "", lookup
 	}
+	if addr.IP.IsUnspecified() {
+		// net.Dial does not connect to "0.0.0.0:80" or "[::]:80" as written: for a literal
+		// unspecified address "the local system is assumed", i.e. the station itself is
+		// dialed, whatever the blocklist says about 127.0.0.0/8 and ::1.
+		return "", lookup
+	}
 	if addr.Zone != "" {
 		// A zone names an interface of this station, which a client cannot
 		// meaningfully choose; for IPv4-mapped addresses IPAddr.String() even
